@@ -10,15 +10,21 @@ EXTENDS Naturals, Sequences, FiniteSets
 
 NoneC == [k |-> "none", kind |-> "", ds |-> {}, v |-> 0]
 
-\* entry kinds that make a Spec-named entry a *failing Spec file*
+\* entry kinds: "ok" a valid Spec file, "linkok" a symbolic link to one (loaded through the
+\* link), "syntax"/"semantic"/"empty" invalid content, "dangling" a link to nothing (the same
+\* code path as a file that vanishes between listing and reading), "linkdir" a link to a
+\* directory (cannot be read as a Spec: an error entry is allowed, not required),
+\* "dirent" a sub-directory carrying a Spec name (ignored like every sub-directory)
+ValidKinds == {"ok", "linkok"}
 BadKinds == {"syntax", "semantic", "empty", "dangling"}
+MayFailKinds == {"linkdir"}
 
 Scannable(fs, dirs, i) == fs[dirs[i]].st = "dir"
 
 \* valid Spec files directly inside configured directory number i
 ValidIn(fs, dirs, SpecNames, i) ==
   IF Scannable(fs, dirs, i)
-  THEN { n \in SpecNames : fs[dirs[i]].ents[n].k = "ok" }
+  THEN { n \in SpecNames : fs[dirs[i]].ents[n].k \in ValidKinds }
   ELSE {}
 
 Defs(fs, dirs, SpecNames, i, kind, d) ==
@@ -46,6 +52,10 @@ KindsPresent(fs, dirs, SpecNames) ==
 FilesInError(fs, dirs, SpecNames) ==
   { <<dirs[i], n>> : <<i, n>> \in { <<i, n>> \in (1..Len(dirs)) \X SpecNames :
         Scannable(fs, dirs, i) /\ fs[dirs[i]].ents[n].k \in BadKinds } }
+
+MayFailFiles(fs, dirs, SpecNames) ==
+  { <<dirs[i], n>> : <<i, n>> \in { <<i, n>> \in (1..Len(dirs)) \X SpecNames :
+        Scannable(fs, dirs, i) /\ fs[dirs[i]].ents[n].k \in MayFailKinds } }
 
 \* files taking part in a same-priority conflict (an error entry is allowed, not required)
 ConflictFiles(fs, dirs, SpecNames, Kinds, Devs) ==
